@@ -520,3 +520,17 @@ func ReadCaseMarker(path string) *Trace {
 	}
 	return &t
 }
+
+// ---------------------------------------------------------------- exit hooks
+
+var atExit []func()
+
+// AtExit registers a function the runner calls before a worker/replay process exits normally.
+func AtExit(f func()) { atExit = append(atExit, f) }
+
+// RunAtExit runs the registered hooks.
+func RunAtExit() {
+	for _, f := range atExit {
+		f()
+	}
+}
